@@ -505,6 +505,10 @@ fn one_session<C: Names + embedded_cli::service::Autocomplete + embedded_cli::se
         }
         let after = (m.text(), m.cur);
         // ---- real step
+        let (pre_real_cursor, pre_real_len) = {
+            let e = cli.editor.as_ref().expect("editor present");
+            (e.cursor(), e.text().chars().count())
+        };
         let res = cli.process_byte::<C, _>(b, &mut handler);
         let st = sink.0.borrow();
         let delta: Vec<SinkEv> = st.evs[n_evs_before..].to_vec();
@@ -561,7 +565,11 @@ fn one_session<C: Names + embedded_cli::service::Autocomplete + embedded_cli::se
             Some(Ev::Tab) => &["C11", "C16"],
             _ => &["C05", "C17"],
         };
-        if (rt.clone(), rc) != after && (only.is_empty() || line_props.contains(&only)) {
+        // one-step checks do not blame this key when the editor was already inconsistent before it (cursor beyond the
+        // line: an earlier defect of another kind)
+        let stepwise = matches!(only, "C06" | "C13" | "C14" | "C15" | "C02" | "C03" | "C10" | "C11" | "C16");
+        let pre_corrupt = stepwise && pre_real_cursor > pre_real_len;
+        if (rt.clone(), rc) != after && !pre_corrupt && (only.is_empty() || line_props.contains(&only)) {
             return Some(Cex { input: trace, expected: format!("line {:?} cursor {}", after.0, after.1), actual: format!("line {:?} cursor {}", rt, rc) });
         }
         if (rt.clone(), rc) != after && matches!(only, "C06" | "C13" | "C14" | "C15" | "C02" | "C03" | "C10" | "C11" | "C16") {
